@@ -1199,7 +1199,7 @@ def finding_key(case, res):
 
 
 MANIFEST = {
-    "text": ("Partial proof. 47 Lean theorems about executable models of ancestor_utils.py / api.py, tied to the code on every run "
+    "text": ("Partial proof. 44 Lean theorems about executable models of ancestor_utils.py / api.py, tied to the code on every run "
              "by differential correspondence (0 disagreements): minimisation is total on graph variables (F8a fixed), well formed, "
              "equal to the published ||Y_x||, idempotent, and the SAME RANDOM VARIABLE in every compatible functional SCM, for "
              "every reading of the value symbols, at every noise point (minimize_same_rv); counterfactual ancestors are exactly "
